@@ -1,8 +1,8 @@
 CONSTANTS
   Alphabet = {"a", "b", "c"}
   MaxLen = 5
-  DistinctLens = {1, 2, 3, 4, 5, 6, 7, 8, 9, 10, 11, 12}
-  VariantLens = {3, 5, 6, 7, 9, 10}
+  DistinctLens = {1, 2, 3, 4, 5, 6, 7, 8, 9, 10, 11}
+  VariantLens = {3, 5, 6, 7}
 INIT Init
 NEXT Next
 INVARIANTS ExactWhenOK OKWhenNoRepeat NoDoubleProof Sizes EmitRow
